@@ -20,7 +20,8 @@ RULE = ('module M (4-40 functions, data segments incl. passive ones + memory.ini
         'interpreter transcript of the call script; for equal formatting options the multiset of function texts equals the '
         'single-file -t 1 output; a function sits in an s* file only if R contains a byte-identical body; reruns and all thread '
         'counts give byte-identical files, also when the output directory already holds the files of an earlier run with other '
-        'options (no -c); all translator build variants give byte-identical files. Non-trivial = variant with '
+        'options (no -c); all translator build variants give byte-identical files; modules with nesting depths of 1500-8000 blocks '
+        'translate into several files (-f, -t, -r) whenever they translate into one, with the same function texts. Non-trivial = variant with '
         '>= 2 implementation files, both static and dynamic functions, >= 2 worker threads with >= 3 files, or >= 3 options; '
         'distinct by (module, option set).')
 ASSUME = ['command lines put options before the two positional arguments; -t is never passed to a HAS_PTHREAD=0 build',
@@ -552,7 +553,123 @@ def tsan_task(wid, seed, params):
     return res
 
 
+def deep_module(depth, nextra, variant=0):
+    """bytes of a module whose first function is `depth` blocks / loops deep (assembled by hand: no recursion on this side), followed
+    by a few small functions; variant != 0 changes the small functions only (a reference module)"""
+    enc = wasm.Encoder()
+    u = enc.u
+    body = b'\x00' + b''.join(b'\x02\x7f' if d % 2 else b'\x03\x7f' for d in range(depth)) + b'\x20\x00' + b'\x0b' * depth + b'\x0b'
+    bodies = [u(len(body)) + body]
+    for k in range(nextra):
+        b = b'\x00\x20\x00\x41' + bytes([(k + 1 + variant * (k % 2)) & 0x3f]) + b'\x6a\x0b'
+        bodies.append(u(len(b)) + b)
+    n = 1 + nextra
+
+    def sec(i, payload):
+        return bytes([i]) + u(len(payload)) + payload
+    out = b'\x00asm\x01\x00\x00\x00'
+    out += sec(1, u(1) + b'\x60\x01\x7f\x01\x7f')
+    out += sec(3, u(n) + b'\x00' * n)
+    out += sec(7, u(n) + b''.join(enc.name(b'e%d' % i) + b'\x00' + u(i) for i in range(n)))
+    out += sec(10, u(n) + b''.join(bodies))
+    return out
+
+
+def deep_task(wid, seed, params):
+    """nesting depths of several thousand blocks: what the translator can translate into one file it can translate into several
+    (worker threads, static / dynamic split) - same exit status, each function once, same function texts"""
+    res = {'evaluations': 0, 'nontrivial': set(), 'classes': collections.Counter(), 'samples': [], 'violations': [],
+           'infra': [], 'extra': collections.Counter()}
+    for ci in range(params['ncases']):
+        ch = Chooser(seed * 1000003 + ci)
+        depth = ch.pick((1500, 3000, 4500, 6000, 8000))
+        nextra = 2 + ch.below(3)
+        wb = deep_module(depth, nextra)
+        refb = deep_module(depth, nextra, 1)
+        base = {}
+        ok = True
+        for pretty in (False, True):
+            d0, tr0 = translate_to(wb, ['-t', '1'] + (['-p'] if pretty else []), 'plain')
+            try:
+                if tr0.rc != 0:
+                    ok = False
+                    break
+                bd = collections.Counter()
+                for fn, defs in fdefs(open(os.path.join(d0, 'm.c'), errors='replace').read()).items():
+                    for t in defs:
+                        bd[t] += 1
+                base[pretty] = bd
+            finally:
+                cexec.rm(d0)
+        if not ok:
+            res['extra']['deep_module_not_translatable_in_one_file'] += 1       # beyond what the translator handles at all
+            continue
+        for oi in range(params['nvariants']):
+            opts = ['-f', str(ch.pick((1, 1, 2, 3)))]
+            if ch.below(2):
+                opts += ['-t', str(ch.pick((1, 2, 3, 8)))]
+            pretty = ch.below(3) == 0
+            if pretty:
+                opts.append('-p')
+            with_ref = ch.below(3) == 0
+            if with_ref:
+                opts += ['-r', 'ref.wasm']
+            d, tr = translate_to(wb, opts, 'plain', refb if with_ref else None)
+            res['evaluations'] += 1
+            res['classes']['deep_nesting_split_output'] += 1
+            res['nontrivial'].add(f1.hx((depth, nextra, tuple(opts))))
+            problem = None
+            try:
+                if tr.rc != 0:
+                    problem = 'translator exit %r with options %s on a module it translates into one file (nesting depth %d): %s' % (
+                        tr.rc, ' '.join(opts), depth, tr.err.decode(errors='replace')[-160:])
+                else:
+                    texts = collections.Counter()
+                    for n in sorted(os.listdir(d)):
+                        if n == 'm.c' or IMPL.match(n):
+                            for fn, defs in fdefs(open(os.path.join(d, n), errors='replace').read()).items():
+                                for t in defs:
+                                    texts[t] += 1
+                    if texts != base[pretty]:
+                        problem = 'function texts differ from the single-file output (nesting depth %d, options %s): %d vs %d definitions' % (
+                            depth, ' '.join(opts), sum(texts.values()), sum(base[pretty].values()))
+            finally:
+                cexec.rm(d)
+            if problem and not res['violations']:
+                res['violations'].append({'signature': 'deep:' + sig_of(problem), 'summary': problem,
+                                          'replay': {'kind': 'c09-deep', 'depth': depth, 'nextra': nextra, 'options': opts, 'pretty': pretty, 'with_ref': with_ref}})
+    res['extra'] = dict(res['extra'])
+    return res
+
+
+def deep_replay(rp):
+    wb = deep_module(rp['depth'], rp['nextra'])
+    refb = deep_module(rp['depth'], rp['nextra'], 1)
+    d0, tr0 = translate_to(wb, ['-t', '1'] + (['-p'] if rp['pretty'] else []), 'plain')
+    try:
+        if tr0.rc != 0:
+            return False
+        base = collections.Counter(t for fn, defs in fdefs(open(os.path.join(d0, 'm.c'), errors='replace').read()).items() for t in defs)
+    finally:
+        cexec.rm(d0)
+    d, tr = translate_to(wb, rp['options'], 'plain', refb if rp['with_ref'] else None)
+    try:
+        if tr.rc != 0:
+            return True
+        texts = collections.Counter()
+        for n in sorted(os.listdir(d)):
+            if n == 'm.c' or IMPL.match(n):
+                for fn, defs in fdefs(open(os.path.join(d, n), errors='replace').read()).items():
+                    for t in defs:
+                        texts[t] += 1
+        return texts != base
+    finally:
+        cexec.rm(d)
+
+
 def dispatch(wid, seed, params):
+    if params.get('deep'):
+        return deep_task(wid, seed, params)
     if params.get('sched'):
         return sched_task(wid, seed, params)
     if params.get('tsan'):
@@ -561,6 +678,8 @@ def dispatch(wid, seed, params):
 
 
 def replay(rp):
+    if rp.get('kind') == 'c09-deep':
+        return deep_replay(rp)
     if rp.get('kind') == 'c09-threads':
         wb = bytes.fromhex(rp['module_hex'])
         opts = rp['options']
@@ -661,9 +780,9 @@ def replay(rp):
 def plan(tier, seed):
     if tier == 'quick':
         return [{'ncases': 8, 'nvariants': 4} for _ in range(28)] + [{'sched': True, 'ncases': 6, 'schedules': 40} for _ in range(4)] + \
-            [{'tsan': True, 'ncases': 12} for _ in range(4)]
+            [{'tsan': True, 'ncases': 12} for _ in range(4)] + [{'deep': True, 'ncases': 3, 'nvariants': 4} for _ in range(2)]
     return [{'ncases': 30, 'nvariants': 8} for _ in range(56)] + [{'sched': True, 'ncases': 40, 'schedules': 120} for _ in range(8)] + \
-        [{'tsan': True, 'ncases': 150} for _ in range(8)]
+        [{'tsan': True, 'ncases': 150} for _ in range(8)] + [{'deep': True, 'ncases': 30, 'nvariants': 8} for _ in range(4)]
 
 
 def run(tier, seed):
